@@ -5,7 +5,7 @@ From V.c01 Require Import C01Codec C01Model.
 From V.c02 Require Import C02Proofs C02Witness.
 
 (* per leaf kind (all 14 value shapes at once): the bytes the encoder writes are Size() many, under the guard
-   leaf_size_guard (4-character names / handler type, counts below 2^32; no version is excluded any more) *)
+   leaf_size_guard (4-character names, counts below 2^32; no version is excluded any more) *)
 Theorem C02_leaf : forall l b, raw_leaf l (dflt_rsv l) = Ok b -> leaf_size_guard l = true -> lenN b = size_leaf l.
 Proof. exact leaf_size. Qed.
 Print Assumptions C02_leaf.
@@ -58,10 +58,12 @@ Theorem C02_unknown_large_fixed : exists t,
 Proof. exact unknown_large_fixed. Qed.
 Print Assumptions C02_unknown_large_fixed.
 
-(* the remaining guard is needed: hdlr.Size() assumes a 4-character HandlerType *)
-Theorem C02_hdlr_refuted : exists enc, encode_w t_hdlr_bad = Ok enc /\ lenN enc < size_box t_hdlr_bad.
-Proof. exact hdlr_refuted. Qed.
-Print Assumptions C02_hdlr_refuted.
+(* finding C02-K3 (hdlr.Size() assumed a 4-character HandlerType), repaired by repo commit 3502d85: a two-character
+   handler type is now sized as it is written; leaf_size_guard no longer mentions hdlr *)
+Theorem C02_hdlr_fixed : exists enc, encode_w t_hdlr_bad = Ok enc /\ encode_sw t_hdlr_bad = Ok enc /\
+  lenN enc = size_box t_hdlr_bad /\ hdr_size_field enc = lenN enc.
+Proof. exact hdlr_fixed. Qed.
+Print Assumptions C02_hdlr_fixed.
 
 Example C02_ex_moof : size_ok ex_tree = true /\ exists enc, raw_box false ex_tree = Ok enc /\ lenN enc = 120.
 Proof. exact ex_tree_ok. Qed.
